@@ -19,6 +19,7 @@ import sys
 import time
 
 ROOT = os.path.dirname(os.path.dirname(os.path.abspath(__file__)))
+REPO = "/repo"
 CACHE = ROOT + "/.cache"
 OUT = ROOT + "/out"
 COQ = ROOT + "/coq"
@@ -58,6 +59,11 @@ FAULT_PROPS = {
     "OVERFLOW_STATE": {"C03"},
     "SHAPES_PANIC": {"C06"},
     "ITER_DEFAULT": {"C09", "C10"},
+    "CLONE_SELF": {"C15"},
+    "SERDE_SHAPE": {"C20"},
+    "FMT_SHAPE": {"C19"},
+    "SHAPE_DICT": {"C01", "C11", "C13", "C05", "C14"},
+    "SHAPE_SET": {"C07", "C08", "C05", "C14"},
     "EXTEND_REF": {"C16"},
     "MIRI": None,
     "CRASH": None,  # every property
@@ -468,6 +474,7 @@ def nostd_check():
 
 
 MIRI_PROPS = {"C02", "C03", "C04", "C10", "C13", "C15", "C17", "C18"}
+MIRI_SHAPE_PROPS = {"C02", "C17"}
 
 
 def miri_replay(prop, cases, model_obs, tmp, all_faults, shards=12, per_shard=14):
@@ -494,7 +501,35 @@ def miri_replay(prop, cases, model_obs, tmp, all_faults, shards=12, per_shard=14
         p = subprocess.Popen(f"cd {ROOT}/harness && cargo +nightly miri run --offline -- {cp} {fp} {mk} > {op} 2> {op}.err",
                              shell=True, env=env)
         procs.append((mine, cp, op, fp, mk, p))
+    # the element-shape scenario (zero-sized, 1-byte, padded, large, heap-owning layouts; small capacities) under Miri
+    shp = None
+    if prop in MIRI_SHAPE_PROPS:
+        sfp = f"{tmp}.miri.shapes"
+        shp = (sfp, subprocess.Popen(f"cd {ROOT}/harness && cargo +nightly miri run --offline -- --shapes {sfp} > {sfp}.out 2> {sfp}.err",
+                                     shell=True, env=env))
     ub, diff_cases, ran = [], [], 0
+    shapes_info = None
+    if shp:
+        sfp, p = shp
+        try:
+            rc = p.wait(timeout=3000)
+        except subprocess.TimeoutExpired:
+            p.kill()
+            rc = -9
+        err = open(sfp + ".err").read() if os.path.exists(sfp + ".err") else ""
+        if rc == -9:
+            shapes_info = "timeout (not counted)"
+        elif rc != 0:
+            msg = re.search(r"error: Undefined Behavior: ([^\n]*)", err)
+            all_faults.append(("miri", -1, f"FAULT -1 op=shapes MIRI {'Undefined Behavior' if msg else 'abnormal exit'} in the element-shape scenario under Miri: {msg.group(1) if msg else err[-200:].strip()}"))
+            shapes_info = "failed"
+        else:
+            shapes_info = "ran clean"
+            if os.path.exists(sfp):
+                for ln in open(sfp):
+                    if ln.startswith("FAULT"):
+                        all_faults.append(("miri", -1, ln.strip()))
+                        shapes_info = "oracle faults"
     for mine, cp, op, fp, mk, p in procs:
         try:
             rc = p.wait(timeout=2400)
@@ -525,7 +560,7 @@ def miri_replay(prop, cases, model_obs, tmp, all_faults, shards=12, per_shard=14
                 if ln.startswith("FAULT"):
                     k = int(ln.split()[1])
                     all_faults.append(("miri", mine[k] if 0 <= k < len(mine) else -1, ln.strip()))
-    return {"miri_cases": ran, "miri_ub": ub, "diff_cases": diff_cases}
+    return {"miri_cases": ran, "miri_ub": ub, "diff_cases": diff_cases, "miri_shape_scenario": shapes_info}
 
 
 def coqchk(prop):
@@ -656,7 +691,7 @@ def check(prop, tier, replay=None):
                         run_stats["objects_tracked_by_ledger"] += int(m.group(4))
 
     # 4b. element-shape oracles (no-Drop types with an observable Clone, ZST, Copy, large, heap-owning)
-    if not replay and prop in ("C03", "C06", "C09", "C10", "C15", "C16"):
+    if not replay and prop in ("C01", "C03", "C05", "C06", "C07", "C08", "C09", "C10", "C11", "C13", "C14", "C15", "C16", "C19", "C20"):
         for prof in ("debug", "release"):
             fp = f"{tmp}.{prof}.shapes"
             r = sh(f"{CACHE}/target/{prof}/mm-harness --shapes {fp}", timeout=120)
@@ -697,7 +732,9 @@ def check(prop, tier, replay=None):
         reported.add(ci)
         case = cases[ci] if 0 <= ci < len(cases) else ""
         if ci < 0:
-            case = "# element-shape scenario of harness/src/shapes.rs; re-run: .cache/target/" + prof + "/mm-harness --shapes /dev/stdout"
+            case = ("# element-shape scenario of harness/src/shapes.rs; re-run: " +
+                    ("cd harness && MIRIFLAGS='-Zmiri-ignore-leaks -Zmiri-disable-isolation' cargo +nightly miri run --offline -- --shapes /dev/stdout"
+                     if prof == "miri" else ".cache/target/" + prof + "/mm-harness --shapes /dev/stdout"))
         small = shrink(case, fails) if case and ci >= 0 and len(reported) <= 3 else case
         h = hashlib.sha1(small.encode()).hexdigest()[:10]
         rp = f"{OUT}/replay/{prop}-{h}.case"
@@ -805,6 +842,30 @@ TRUSTED = [
 ]
 
 
+def source_audit():
+    """files of /repo/src whose content differs from what the model was last read against (informational)"""
+    import hashlib, glob
+    rec = {}
+    try:
+        for ln in open(ROOT + "/coq/SOURCE_AUDIT.tsv"):
+            if ln.startswith("#") or "\t" not in ln:
+                continue
+            a, b = ln.rstrip("\n").split("\t")
+            rec[a] = b
+    except OSError:
+        return {"error": "coq/SOURCE_AUDIT.tsv missing"}
+    changed, new = [], []
+    for f in sorted(glob.glob(REPO + "/src/**/*.rs", recursive=True)):
+        rel = os.path.relpath(f, REPO)
+        h = hashlib.sha256(open(f, "rb").read()).hexdigest()
+        if rel not in rec:
+            new.append(rel)
+        elif rec[rel] != h:
+            changed.append(rel)
+    gone = [r for r in rec if not os.path.exists(os.path.join(REPO, r))]
+    return {"files_audited": len(rec), "changed_since_model_audit": changed, "new_files": new, "removed_files": gone}
+
+
 def write_evidence(prop, tier, seed, gate, dist, cases, nt, validated, ksample, ndiff, t0, nviol, notes, n_faults=0):
     os.makedirs(ROOT + "/evidence", exist_ok=True)
     level = LEVEL.get(prop, "proof")
@@ -828,6 +889,7 @@ def write_evidence(prop, tier, seed, gate, dist, cases, nt, validated, ksample, 
         "direct_oracle_faults": n_faults,
         "input_distribution": dist,
         "exhaustive": False,
+        "source_files_vs_model_audit": source_audit(),
         "notes": notes,
     }
     if level == "other":
